@@ -22,7 +22,7 @@ def budget(tier):
 
 
 def gen(d, tier):
-    cfg = draw_cfg(d)
+    cfg = draw_cfg(d, allow_ci=True)
     origin = d.int(0, 1)
     cfg["origin"] = origin
     n_ops = (3, 8) if tier == "quick" else (3, 16)
